@@ -9,3 +9,4 @@ import Gleece.Properties.Serve
 #print axioms Gleece.Serve.unmatched_not_served
 #print axioms Gleece.Serve.served_by_matching_route
 #print axioms Gleece.Serve.matchSegs_literal
+#print axioms Gleece.Serve.matchSegs_spec
